@@ -103,19 +103,19 @@ class Material(MaterialFile):
 
         # Filter rows where input string is substring of category_name or name
         dfi = df[
-            df['category_name'].str.lower().str.contains(name) |
-            df['name'].str.lower().str.contains(name)
+            df['category_name'].str.lower().str.contains(name, regex=False) |
+            df['name'].str.lower().str.contains(name, regex=False)
         ].copy()
 
         # If reference given, filter rows non-matching rows
         if self.reference:
             reference = self.reference.lower()
             dfi = dfi[
-                dfi['category_name'].str.lower().str.contains(reference) |
-                dfi['category_name_full'].str.lower().str.contains(reference) |
-                dfi['reference'].str.lower().str.contains(reference) |
-                dfi['name'].str.lower().str.contains(reference) |
-                dfi['filename'].str.lower().str.contains(reference)
+                dfi['category_name'].str.lower().str.contains(reference, regex=False) |
+                dfi['category_name_full'].str.lower().str.contains(reference, regex=False) |
+                dfi['reference'].str.lower().str.contains(reference, regex=False) |
+                dfi['name'].str.lower().str.contains(reference, regex=False) |
+                dfi['filename'].str.lower().str.contains(reference, regex=False)
             ]
 
         # Filter rows based on wavelength range
